@@ -107,9 +107,8 @@ func parseQuantHyp(line string) (*quantHyp, bool) {
 			if k := strings.Index(as[1], ":pattern"); k >= 0 && strings.HasPrefix(strings.TrimSpace(as[1]), "(! ") {
 				q.pattern = as[1][k:]
 			}
-			if strings.Contains(q.body, "(forall ") || strings.Contains(q.body, "(exists ") {
-				return nil, false
-			}
+			// nested quantifiers stay quantified inside the instances (sound: an instance of a
+			// universally quantified hypothesis is implied by it, whatever its body contains)
 			return q, true
 		}
 		return nil, false
